@@ -120,6 +120,25 @@ CHECKS: dict[str, tuple[str, str, str, str, str]] = {
         "differential execution of tagged vs untagged generated code against NumPy + TLC "
         "model checking of every variant's kernel dependency graph (PtKernel)",
         "DESIGN.md section 4 C07"),
+    "C11": (
+        "model_checking",
+        "For every kernel produced by the real generate_loopy (C01's random static programs, "
+        "C16's symbolic-shape templates, directed roll/pad/concatenate/reshape/slice/einsum/"
+        "stored-reduction programs) the harness exports the access model: per subscript the "
+        "index expressions, the accessed array's extent, the guard context (enclosing If "
+        "conditions, negated on else branches), the ISL iteration domain (reduction bounds "
+        "substituted) and the size parameters. The model becomes a generated TLA+ module; for "
+        "kernels with size parameters Apalache decides Init => InBounds over UNBOUNDED integers "
+        "(all loop indices, all non-negative sizes) and TLC re-checks the module on a bounded "
+        "range as a cross-check of the translation; static kernels have finite domains and TLC "
+        "decides them completely. Data-dependent index components are skipped as documented.",
+        "Trusted: Apalache 0.58 / Z3, TLC, loopy's ISL domains, the expression walker in "
+        "ptverif/kernelexport.py. The kernel checked is BoundProgram.program before loopy's own "
+        "preprocessing. If an Apalache batch times out the evidence says so and only the "
+        "bounded result holds for it.",
+        "symbolic (SMT) model checking with Apalache of a TLA+ module generated from the access "
+        "model of real kernels, TLC on bounded ranges as cross-check; TLC alone for static kernels",
+        "DESIGN.md section 4 C11"),
     "C12": (
         "model_checking",
         "Seeded random caller programs with 1..3 call sites (bodies: random programs over 1..4 "
@@ -247,6 +266,10 @@ def build() -> dict:
             "add_only": True,
         },
         "engines": [
+            {"name": "apalache", "path": "/opt/veriftools/apalache",
+             "serves_properties": ["C11"],
+             "kind_free_text": "Apalache 0.58.0 symbolic model checker (SMT) for TLA+, used "
+                               "for unbounded integer obligations of C11"},
             {"name": "tlc", "path": "/opt/veriftools/tla/tla2tools.jar",
              "serves_properties": sorted(CHECKS),
              "kind_free_text": "TLC 1.8.0: explicit-state model checker and evaluator of "
